@@ -54,14 +54,14 @@ Proof.
   unfold ck_eqb at 1. simpl. assert (i =? ch = false) as -> by (apply N.eqb_neq; auto). simpl. f_equal. apply IH. auto.
 Qed.
 
-Lemma entries_aset_adel : forall (chans : list (N * schan)) ch c k ep log,
+Lemma entries_aset_adel : forall (chans : list (N * schan)) ch c k ep log kp sd md,
   NoDup (map fst chans) -> aget N.eqb chans ch = Some c ->
   flat_map (fun ic => chan_items (fst ic) (sc_map (snd ic)))
-           (aset N.eqb chans ch (mkSC ep (adel key_eqb (sc_map c) k) log)) =
+           (aset N.eqb chans ch (mkSC ep (adel key_eqb (sc_map c) k) log kp sd md)) =
   filter (fun it => negb (ck_eqb (fst it) (ch, k)))
          (flat_map (fun ic => chan_items (fst ic) (sc_map (snd ic))) chans).
 Proof.
-  induction chans as [|[i sc] chans IH]; intros ch c k ep log ND G; simpl in *; [discriminate|].
+  induction chans as [|[i sc] chans IH]; intros ch c k ep log kp sd md ND G; simpl in *; [discriminate|].
   inversion ND; subst. rewrite filter_app.
   destruct (ch =? i) eqn:E.
   - apply N.eqb_eq in E; subst i. inversion G; subst. simpl. rewrite chan_items_adel. f_equal.
@@ -107,6 +107,9 @@ Proof. intros cfgs h s p t (HC & HI & HN & HE & HB). unfold hubR; simpl. auto. Q
 Lemma hubR_set_kexp : forall cfgs h s m, hubR cfgs h s -> hubR cfgs (set_kexp h m) s.
 Proof. intros cfgs h s m (HC & HI & HN & HE & HB). unfold hubR; simpl. auto. Qed.
 
+Lemma WFs_bcast_ : forall s b, WFs s -> WFs (s_bcast s b).
+Proof. intros s b (W1 & W2). split; auto. Qed.
+
 Lemma expire_one_sim : forall cfgs h s ev e,
   hubR cfgs h s -> WFs s ->
   entry_at h (ev_ch ev) (ev_key ev) = Some e -> e_exp e = ev_exp ev ->
@@ -129,33 +132,32 @@ Proof.
   destruct (WFs_get _ _ _ WF G') as (NDM & OFM).
   assert (OF1 : forall tg, offs_from 0 (sc_log sc ++ [mkPub (ev_key ev) (N.of_nat (length (sc_log sc)) + 1) 0 tg true 0%Z])).
   { intro tg. apply offs_from_app; auto. }
-  assert (WF' : forall log, offs_from 0 log -> WFs (s_bcast (s_set s (ev_ch ev) (mkSC (sc_epoch sc) (adel key_eqb (c_state c) (ev_key ev)) log))
-                     (mkBc (ev_ch ev) (mkPub (ev_key ev) (if 0 <? size_of cfgs (ev_ch ev) then N.of_nat (length (sc_log sc)) + 1 else 0) 0 (ev_tags ev) true 0%Z)
-                           (s_pos (mkSC (sc_epoch sc) (adel key_eqb (c_state c) (ev_key ev)) log)) false None))).
-  { intros log OL. destruct (WFs_set s (ev_ch ev) (mkSC (sc_epoch sc) (adel key_eqb (c_state c) (ev_key ev)) log) WF) as (A & B).
-    - simpl. rewrite EM. apply adel_nodup. assumption.
-    - exact OL.
-    - split; assumption. }
-  assert (ENT : forall log b, s_entries (s_bcast (s_set s (ev_ch ev) (mkSC (sc_epoch sc) (adel key_eqb (c_state c) (ev_key ev)) log)) b) =
+  assert (WF' : forall log kp b, offs_from 0 log ->
+            WFs (s_bcast (s_set s (ev_ch ev) (mkSC (sc_epoch sc) (adel key_eqb (c_state c) (ev_key ev)) log kp (sc_sdead sc) (sc_mdead sc))) b)).
+  { intros log kp b OL. apply WFs_bcast_. apply WFs_set; auto. simpl. rewrite EM. apply adel_nodup. assumption. }
+  assert (ENT : forall log kp b, s_entries (s_bcast (s_set s (ev_ch ev) (mkSC (sc_epoch sc) (adel key_eqb (c_state c) (ev_key ev)) log kp (sc_sdead sc) (sc_mdead sc))) b) =
                       filter (fun it => negb (ck_eqb (fst it) (ev_ch ev, ev_key ev))) (s_entries s)).
-  { intros log b. rewrite !s_entries_unfold. simpl. rewrite EM. destruct WF as (W1 & _). apply entries_aset_adel; auto. }
+  { intros log kp b. rewrite !s_entries_unfold. simpl. rewrite EM. destruct WF as (W1 & _). apply entries_aset_adel; auto. }
   destruct (0 <? size_of cfgs (ev_ch ev)) eqn:SZ.
-  - unfold stream_add. simpl. rewrite ESt. simpl. rewrite window_app.
+  - unfold retained in ESt.
+    assert (ES' : c_stream (set_state c (adel key_eqb (c_state c) (ev_key ev))) =
+                  mkStream (N.of_nat (length (sc_log sc))) (sc_epoch sc) (window (size_of cfgs (ev_ch ev)) (lastk (sc_keep sc) (sc_log sc)))) by exact ESt.
+    rewrite (stream_add_R _ _ _ _ _ _ ES').
     splits; auto.
     unfold s_pos; simpl. rewrite app_length; simpl.
     replace (N.of_nat (length (sc_log sc) + 1)) with (N.of_nat (length (sc_log sc)) + 1) by lia.
     apply hubR_bcast. apply hubR_set_both; [apply hubR_set_kexp; assumption|].
-    unfold chanR, set_stream, set_state, ord_ok, cache_ok in *; simpl.
+    unfold chanR, retained, set_stream, set_state, ord_ok, cache_ok in *; simpl.
     rewrite app_length; simpl.
     replace (N.of_nat (length (sc_log sc) + 1)) with (N.of_nat (length (sc_log sc)) + 1) by lia.
     splits; auto; try tauto; try discriminate.
     intro Z0. apply N.ltb_lt in SZ. lia.
   - splits; auto.
     assert (chan_pos (set_state c (adel key_eqb (c_state c) (ev_key ev))) =
-            s_pos (mkSC (sc_epoch sc) (adel key_eqb (c_state c) (ev_key ev)) (sc_log sc))) as ->.
+            s_pos (mkSC (sc_epoch sc) (adel key_eqb (c_state c) (ev_key ev)) (sc_log sc) (sc_keep sc) (sc_sdead sc) (sc_mdead sc))) as ->.
     { unfold chan_pos, s_pos; simpl. rewrite ESt. reflexivity. }
     apply hubR_bcast. apply hubR_set_both; [apply hubR_set_kexp; assumption|].
-    unfold chanR, set_stream, set_state, ord_ok, cache_ok in *; simpl.
+    unfold chanR, retained, set_stream, set_state, ord_ok, cache_ok in *; simpl.
     splits; auto; try tauto; try discriminate.
 Qed.
 
@@ -297,7 +299,7 @@ Proof.
   intros s ch s1 c WF H. unfold s_ensure in H. destruct (s_get s ch) as [c0|] eqn:G.
   - inversion H; subst. destruct (WFs_get _ _ _ WF G). splits; auto.
   - inversion H; subst. splits.
-    + apply (WFs_set s ch (mkSC (ss_nep s) [] [])) in WF; [|simpl; constructor|simpl; exact I].
+    + apply (WFs_set s ch (mkSC (ss_nep s) [] [] 0 0 0)) in WF; [|simpl; constructor|simpl; exact I].
       eapply WFs_chans_eq; [|exact WF]. reflexivity.
     + simpl. constructor.
     + simpl. exact I.
@@ -308,6 +310,12 @@ Lemma WFs_idem_save : forall s ch ik p t, WFs s -> WFs (s_idem_save s ch ik p t)
 Proof. intros. unfold s_idem_save. destruct (ik =? 0); auto. Qed.
 Lemma WFs_bcast : forall s b, WFs s -> WFs (s_bcast s b).
 Proof. intros. eapply WFs_chans_eq; [|exact H]. reflexivity. Qed.
+
+Lemma WFs_set_touch : forall s ch m n c, WFs s -> NoDup (map fst (sc_map c)) -> offs_from 0 (sc_log c) ->
+  WFs (s_set s ch (touch_mdead m n c)).
+Proof.
+  intros. destruct (touch_mdead_fields m n c) as (_ & F2 & F3 & _). apply WFs_set; auto; rewrite ?F2, ?F3; auto.
+Qed.
 
 Lemma spec_publish_WFs : forall cfgs s ch k o s' u, WFs s -> spec_publish cfgs s ch k o = (s', u) -> WFs s'.
 Proof.
@@ -322,12 +330,17 @@ Proof.
   - inversion H; subst; clear H.
     destruct r; auto. destruct (aget key_eqb (sc_map c) k); auto.
     destruct (po_refresh o && (0 <? cf_keyttl cf)); auto.
-    apply WFs_set; auto. simpl. apply (aset_nodup key_eqb key_eqb_eq); auto.
+    apply WFs_set_touch; auto. simpl. apply (aset_nodup key_eqb key_eqb_eq); auto.
   - destruct (if po_ver o =? 0 then match aget key_eqb (sc_map c) k with Some e => (e_ver e, e_vep e) | None => (0, po_vep o) end
               else (po_ver o, po_vep o)) as [ver vep].
-    inversion H; subst; clear H. apply WFs_bcast, WFs_idem_save, WFs_set; auto; simpl.
-    + destruct (is_empty k); auto. apply (aset_nodup key_eqb key_eqb_eq); auto.
-    + destruct (has_stream (cf_mode cf)); auto. apply offs_from_app; auto.
+    inversion H; subst; clear H. apply WFs_bcast, WFs_idem_save.
+    assert (NDM : NoDup (map fst (if is_empty k then sc_map c else aset key_eqb (sc_map c) k
+               (mkEntry (mkPub k (if has_stream (cf_mode cf) then N.of_nat (length (sc_log c)) + 1 else if is_empty k then 0 else N.of_nat (length (sc_log c))) (po_data o) (po_tags o) false (po_score o))
+                        (deadline cf (ss_now s)) ver vep)))).
+    { destruct (is_empty k); auto. apply (aset_nodup key_eqb key_eqb_eq); auto. }
+    destruct (has_stream (cf_mode cf)).
+    + apply WFs_set_touch; auto. simpl. apply offs_from_app; auto.
+    + apply WFs_set; auto.
 Qed.
 
 Lemma spec_remove_WFs : forall cfgs s ch k o s' u, WFs s -> spec_remove cfgs s ch k o = (s', u) -> WFs s'.
@@ -340,9 +353,10 @@ Proof.
   destruct (decide_remove (sc_epoch c) o (aget key_eqb (sc_map c) k)); [inversion H; subst; auto|].
   destruct (WFs_get _ _ _ WF G) as (ND & OF).
   destruct (aget key_eqb (sc_map c) k); inversion H; subst; auto.
-  apply WFs_bcast, WFs_idem_save, WFs_set; auto; simpl.
-  - apply adel_nodup. exact ND.
-  - destruct (has_stream (cf_mode cf)); auto. apply offs_from_app; auto.
+  apply WFs_bcast, WFs_idem_save.
+  destruct (has_stream (cf_mode cf)).
+  - apply WFs_set_touch; auto; simpl; [apply adel_nodup; exact ND | apply offs_from_app; auto].
+  - apply WFs_set; auto. simpl. apply adel_nodup. exact ND.
 Qed.
 
 Lemma spec_clear_WFs : forall s ch, WFs s -> WFs (spec_clear s ch).
@@ -356,12 +370,13 @@ Lemma spec_read_stream_WFs : forall cfgs s ch since lim rv s' r,
   WFs s -> spec_read_stream cfgs s ch since lim rv = (s', r) -> WFs s'.
 Proof.
   intros cfgs s ch since lim rv s' r WF H. unfold spec_read_stream in H.
-  destruct (s_get s ch) as [c|] eqn:G.
-  - destruct since as [[so se]|].
-    + destruct (negb (se =? 0) && negb (se =? sc_epoch c)); inversion H; subst; auto.
-    + inversion H; subst; auto.
-  - destruct (s_ensure s ch) as [s1 c] eqn:EN. inversion H; subst.
-    eapply WFs_ensure; eauto.
+  destruct (s_ensure s ch) as [s1 c] eqn:EN.
+  destruct (WFs_ensure _ _ _ _ WF EN) as (WF1 & ND & OF & G1).
+  assert (WFs (s_set s1 ch (touch_mdead (mttl_of cfgs ch) (ss_now s) c))) by (apply WFs_set_touch; auto).
+  destruct (s_get s ch); [|inversion H; subst; auto].
+  destruct since as [[so se]|].
+  - destruct (negb (se =? 0) && negb (se =? sc_epoch (touch_mdead (mttl_of cfgs ch) (ss_now s) c))); inversion H; subst; auto.
+  - inversion H; subst; auto.
 Qed.
 
 Lemma spec_read_state_WFs : forall cfgs s ch rev cur lim k asc s' r,
@@ -369,11 +384,11 @@ Lemma spec_read_state_WFs : forall cfgs s ch rev cur lim k asc s' r,
 Proof.
   intros cfgs s ch rev cur lim k asc s' r WF H. unfold spec_read_state in H.
   destruct (cfg_of cfgs ch) as [cf|e]; [|inversion H; subst; auto].
-  destruct (s_get s ch) as [c|] eqn:G.
-  - inversion H; subst; auto.
-  - destruct (s_ensure s ch) as [s1 c] eqn:EN.
-    assert (WFs s1) by (eapply WFs_ensure; eauto).
-    destruct rev as [[ro re]|]; [destruct (negb (re =? 0))|]; inversion H; subst; auto.
+  destruct (s_ensure s ch) as [s1 c] eqn:EN.
+  destruct (WFs_ensure _ _ _ _ WF EN) as (WF1 & ND & OF & G1).
+  assert (WFs (s_set s1 ch (touch_mdead (cf_mttl cf) (ss_now s) c))) by (apply WFs_set_touch; auto).
+  destruct (s_get s ch); [inversion H; subst; auto|].
+  destruct rev as [[ro re]|]; [destruct (negb (re =? 0))|]; inversion H; subst; auto.
 Qed.
 
 (* ------------------------------------------- operations leave [h_pend] alone *)
@@ -386,19 +401,34 @@ Ltac dmatch H :=
              end
          end.
 
+Lemma pend_touch_meta : forall h ch t, h_pend (touch_meta h ch t) = h_pend h /\ h_pnow (touch_meta h ch t) = h_pnow h.
+Proof. intros. unfold touch_meta. destruct (0 <? t); split; reflexivity. Qed.
+Lemma pend_ret_touch : forall cf h ch, h_pend (ret_touch cf h ch) = h_pend h /\ h_pnow (ret_touch cf h ch) = h_pnow h.
+Proof.
+  intros. unfold ret_touch. destruct (has_stream (cf_mode cf)); [|split; reflexivity].
+  destruct (pend_touch_meta (touch_stream h ch (cf_sttl cf)) ch (cf_mttl cf)) as (A & B). rewrite A, B. split; reflexivity.
+Qed.
+Ltac pend_tac :=
+  repeat match goal with
+         | |- context [h_pend (ret_touch ?cf ?h ?ch)] => rewrite (proj1 (pend_ret_touch cf h ch))
+         | |- context [h_pnow (ret_touch ?cf ?h ?ch)] => rewrite (proj2 (pend_ret_touch cf h ch))
+         | |- context [h_pend (touch_meta ?h ?ch ?t)] => rewrite (proj1 (pend_touch_meta h ch t))
+         | |- context [h_pnow (touch_meta ?h ?ch ?t)] => rewrite (proj2 (pend_touch_meta h ch t))
+         end.
+
 Lemma add_pend : forall cf h ch k o h' p pp r tp,
   add cf h ch k o = (h', p, pp, r, tp) -> h_pend h' = h_pend h /\ h_pnow h' = h_pnow h.
 Proof.
   intros cf h ch k o h' p pp r tp H.
-  unfold add, add_ensure, add_keymode, add_commit, stream_add, ret_touch, touch_meta, touch_stream, ttl_touch in H.
-  dmatch H; inversion H; subst; split; reflexivity.
+  unfold add, add_ensure, add_keymode, add_commit, stream_add in H.
+  dmatch H; inversion H; subst; pend_tac; split; reflexivity.
 Qed.
 
 Lemma hremove_pend : forall cf h ch k o h' p pp r,
   hremove cf h ch k o = (h', p, pp, r) -> h_pend h' = h_pend h /\ h_pnow h' = h_pnow h.
 Proof.
-  intros cf h ch k o h' p pp r H. unfold hremove, stream_add, ret_touch, touch_meta, touch_stream, ttl_touch in H.
-  dmatch H; inversion H; subst; split; reflexivity.
+  intros cf h ch k o h' p pp r H. unfold hremove, stream_add in H.
+  dmatch H; inversion H; subst; pend_tac; split; reflexivity.
 Qed.
 
 Lemma step_pend : forall cfgs h o h' r,
@@ -422,8 +452,8 @@ Proof.
     destruct r1; try (inversion H; subst; auto; fail).
     destruct pp; inversion H; subst; auto. simpl. destruct (ro_idem o =? 0); simpl; auto.
   - inversion H; subst. unfold clear. destruct (get_chan h ch); simpl; auto.
-  - unfold read_state, create_chan, touch_meta, ttl_touch in H. dmatch H; inversion H; subst; simpl; auto.
-  - unfold read_stream, create_chan, touch_meta, ttl_touch in H. dmatch H; inversion H; subst; simpl; auto.
+  - unfold read_state, create_chan in H. dmatch H; inversion H; subst; simpl; pend_tac; auto.
+  - unfold read_stream, create_chan in H. dmatch H; inversion H; subst; simpl; pend_tac; auto.
   - inversion H; subst; simpl; auto.
 Qed.
 
@@ -463,7 +493,7 @@ Lemma Rel0 : forall cfgs, Rel cfgs hub0 sstate0.
 Proof. intros. unfold Rel. splits; auto using hubR0, Inv0, WFs0. Qed.
 
 Lemma step_sim : forall cfgs h s o h' r s' r',
-  Rel cfgs h s -> seq_op o = true ->
+  Rel cfgs h s -> ref_op o = true ->
   step cfgs h o = (h', r) -> spec_step cfgs s o = (s', r') ->
   r = r' /\ Rel cfgs h' s'.
 Proof.
@@ -485,7 +515,7 @@ Proof.
     inversion H1; inversion H2; subst.
     destruct (read_state_sim _ _ _ _ _ _ _ _ _ _ _ _ _ HR E1 E2) as (-> & HR').
     splits; auto. eapply spec_read_state_WFs; eauto. destruct PD; congruence.
-  - destruct (read_stream h ch since limit reverse) as [hx u] eqn:E1.
+  - destruct (read_stream cfgs h ch since limit reverse) as [hx u] eqn:E1.
     destruct (spec_read_stream cfgs s ch since limit reverse) as [sx u'] eqn:E2.
     inversion H1; inversion H2; subst.
     destruct (read_stream_sim _ _ _ _ _ _ _ _ _ _ _ HR WF E1 E2) as (-> & HR').
@@ -496,7 +526,7 @@ Proof.
 Qed.
 
 Theorem refines_from : forall cfgs ops h s,
-  Rel cfgs h s -> forallb seq_op ops = true -> run_obs cfgs h ops = spec_obs cfgs s ops.
+  Rel cfgs h s -> forallb ref_op ops = true -> run_obs cfgs h ops = spec_obs cfgs s ops.
 Proof.
   intros cfgs. induction ops as [|o ops IH]; intros h s RL SQ; simpl; auto.
   simpl in SQ. apply andb_true_iff in SQ as (SQ1 & SQ2).
@@ -507,5 +537,5 @@ Proof.
 Qed.
 
 Theorem refines : forall cfgs ops,
-  forallb seq_op ops = true -> run_obs cfgs hub0 ops = spec_obs cfgs sstate0 ops.
+  forallb ref_op ops = true -> run_obs cfgs hub0 ops = spec_obs cfgs sstate0 ops.
 Proof. intros. apply refines_from; auto. apply Rel0. Qed.
